@@ -52,8 +52,8 @@ PROBE = "\na\n"
 
 def bounds(tier):
     if tier == "quick":
-        return dict(calls=2, cap=4, amt=2)
-    return dict(calls=3, cap=4, amt=2)
+        return dict(calls=2, cap=3, amt=2)
+    return dict(calls=2, cap=4, amt=2)
 
 
 # --------------------------------------------------------------------------- interpretation
@@ -498,7 +498,6 @@ def check_combo(args):
     dec = core.Decider("C25/" + name, tier, stats)
     # second opinions: z3 4.8.12 first (cvc5 1.0.3 does not finish these bit-blasted scripts within the cap);
     # in the quick tier only the first kind sequence is cross-checked
-    dec.second_order = ("z3-old", "cvc5")
     dec.no_second = not second
     res = Result()
     try:
@@ -655,7 +654,7 @@ def run(ctx):
     combos = list(itertools.product(range(4), repeat=K))
     # hardest first (most text calls) so that the pool stays busy
     combos.sort(key=lambda c: -sum(1 for k in c if k in (0, 1)))
-    with multiprocessing.get_context("fork").Pool(4) as pool:
+    with multiprocessing.get_context("fork").Pool(2) as pool:       # 2 workers x 2 racing solvers = 4 cores
         outs = pool.map(check_combo, [(c, tier, seed, B, tier == "thorough" or i == 0) for i, c in enumerate(combos)],
                         chunksize=1)
     seen_roles = set()
